@@ -1698,7 +1698,9 @@ impl AsExpandedName for XmlAttr {
                 .unwrap_or("xmlns")
                 .to_string();
             let namespaces = XmlElement::from(element).in_scope_namespace()?;
-            if let Some(ns) = namespaces.iter().find(|v| v.node_name() == prefix) {
+            // an unprefixed attribute is in no namespace: the default namespace is for elements.
+            let unprefixed = self.attribute.borrow().prefix().is_none();
+            if let Some(ns) = namespaces.iter().find(|v| !unprefixed && v.node_name() == prefix) {
                 (Some(prefix), ns.node_value()?)
             } else {
                 (Some(prefix), None)
